@@ -8,7 +8,7 @@
     [C03_current_is_repaired], fails until the corresponding fixes have landed in /repo. *)
 From Coq Require Import List ZArith Bool String Ascii Arith Sorting.Sorted.
 Require Import NixV.Base.Prelude NixV.Store.Db NixV.Store.DbOps NixV.Store.DbObserve NixV.Store.DbInv NixV.Store.DbShape
-        NixV.Store.DbNoTrace NixV.Store.DbLookup NixV.Store.DbWitness.
+        NixV.Store.DbNoTrace NixV.Store.DbLookup NixV.Store.DbWitness NixV.Store.DbRoutes.
 Import ListNotations.
 
 Section C03.
@@ -127,6 +127,26 @@ Theorem C03_references_agree : forall s h he b t, Inv s -> lcontainer s h LRefs 
   stepR s (OLHas h LRefs (HEnt (e_oid t))) = (s, Ok (VBool true)).
 Proof. intros; eapply lget_reference; eauto. Qed.
 
+(** enumerations with a non-default filter (X::ys(filter), ImplContainer::getEntities): the filtered enumeration is the
+    enumeration filtered, in the same order; a filter by id / by name yields exactly the member the lookup by id / by
+    name finds; whatever a filter returns is a member that its id finds *)
+Theorem C03_filtered_is_filter_of_enumeration : forall s p k pk f, Inv s -> container s p k pk ->
+  exists l, stepR s (OList p k) = (s, Ok (VEnts l)) /\
+            list_filtered ids s p k f = filter (fun o => match find_ent s o with Some e => ematch ids f e | None => false end) l.
+Proof. intros; eapply filtered_is_filter_of_enumeration; eauto. Qed.
+
+Theorem C03_filtered_by_id : forall s p k pk e, Inv s -> container s p k pk -> In e (children s p k) ->
+  list_filtered ids s p k (FId (eid ids e)) = [e_oid e] /\ stepR s (OGet p k (eid ids e)) = (s, Ok (VEnt (Some (e_oid e)))).
+Proof. intros; eapply filtered_by_id; eauto. Qed.
+
+Theorem C03_filtered_by_name : forall s p k pk e, Inv s -> container s p k pk -> In e (children s p k) -> k <> KFeature ->
+  list_filtered ids s p k (FName (e_name e)) = [e_oid e] /\ stepR s (OGet p k (e_name e)) = (s, Ok (VEnt (Some (e_oid e)))).
+Proof. intros; eapply filtered_by_name; eauto. Qed.
+
+Theorem C03_filtered_members : forall s p k pk f o, Inv s -> container s p k pk -> In o (list_filtered ids s p k f) ->
+  exists e, In e (children s p k) /\ e_oid e = o /\ ematch ids f e = true /\ stepR s (OGet p k (eid ids e)) = (s, Ok (VEnt (Some o))).
+Proof. intros; eapply filtered_members; eauto. Qed.
+
 End C03.
 
 Print Assumptions C03_inv_init.
@@ -150,6 +170,10 @@ Print Assumptions C03_link_enumeration.
 Print Assumptions C03_link_index.
 Print Assumptions C03_link_by_id.
 Print Assumptions C03_references_agree.
+Print Assumptions C03_filtered_is_filter_of_enumeration.
+Print Assumptions C03_filtered_by_id.
+Print Assumptions C03_filtered_by_name.
+Print Assumptions C03_filtered_members.
 
 (** non-vacuity: a concrete id supply meets the hypotheses, and a populated file is a reachable state *)
 Example C03_nonvacuous :
